@@ -75,6 +75,22 @@ PROPS = {
                         "the harness submits only at quiescent points (the last state the backend returned has reached the table)"],
         "extra_obligations": [],
     } for pid in ["C10", "C11", "C13", "C14", "C15"]},
+    **{pid: {
+        "layers": ["ac"], "classes": [pid + ".", "CONTRACT."],
+        "modes": {"quick": [{"mode": "actor", "args": ["-n", 16, "-hands", 3, "-playercases", 1500, "-playertimed", 24, "-observercases", 1500], "timeout": 900}],
+                  "thorough": [{"mode": "actor", "args": ["-n", 300, "-hands", 5, "-playercases", 40000, "-playertimed", 200, "-observercases", 40000, "-workers", 16], "timeout": 3000}],
+                  "search": [{"mode": "actor", "args": ["-n", 80, "-hands", 4, "-playercases", 8000, "-playertimed", 48, "-observercases", 8000, "-workers", 16], "timeout": 1500}]},
+        "rule": ("(1) all-bot tables: real botRunner instances wired through the real tableEngineAdapter to a real table engine with real pokerface, 2..7 bots, stacks from 1 chip, "
+                 "several blind structures, played for several hands; every table update each bot receives is recorded with the move it made (or none) and the engine's answer; "
+                 "(2) real playerRunner instances (running / idle / suspended, action time 0 and 1 s) fed with the hand states collected from (1), with a recording adapter and timestamps; "
+                 "(3) real observerRunner + real tableEngineAdapter fed with the same states under every table status, system and non-system, 1..5 actors in random attach order, "
+                 "with pointer and byte comparisons of engine table / other actors' copies before and after, and a write through the observer's copy; every line is compared with the Lean AC model; "
+                 "non-trivial = a move / a shown hand state; distinct = distinct trace lines"),
+        "trusted_base": TB_COMMON + ["pokerface's GetAvailableActions / acceptance guards / AsObserver are transcribed as PF.available, PF.accepts, AC.asObserver (contracts, monitored against the real functions in every run)",
+                                     "the bot's dice are a relation in the model (set of moves with amount intervals): the real move must be a member"],
+        "assumptions": ["timers (bot humanised delay, thinking time) are observed with tolerances, not proved"],
+        "extra_obligations": [],
+    } for pid in ["C18", "C19", "C20"]},
     "C09": {
         "layers": ["ogm"], "classes": ["C09."],
         "modes": {"quick": [{"mode": "ogm", "args": ["-n", 400, "-stress", 300]}],
